@@ -268,14 +268,17 @@ def planeUpgradeBatch (rel : Rel) (batch : Int) (d : Option Wl) (f : Fault) : Ou
       if w.kind = .daemonSet ∧ hasRU w.us = false then .panic
       else .val (commit w (ctrlUpgradeBatch w r e rel.noNeedUpdate) f none)
 
+/-- the `paused` key of a complete `Finalize`: the DaemonSet control writes `"paused":false`, the StatefulSet one none -/
+def finPaused (k : Kind) : Option Bool :=
+  match k with
+  | .daemonSet => some false
+  | _ => none
+
 /-- `realController.Finalize` (both controls): the patch is issued unconditionally;
     `bpNil` = `release.Spec.ReleasePlan.BatchPartition == nil` -/
 def ctrlFinalize (w : Wl) (bpNil : Bool) : Wl :=
   let w1 :=
-    if bpNil then
-      { w with us := normUS w.kind (mergeRU w.us .absent (match w.kind with
-                                                         | .daemonSet => some false
-                                                         | _ => none)) }
+    if bpNil then { w with us := normUS w.kind (mergeRU w.us .absent (finPaused w.kind)) }
     else w
   { w1 with control := .none }
 
@@ -420,23 +423,12 @@ def run (c : Cfg) (d : Option Wl) : List Step → List (Out StepOut)
     | .panic => [.panic]
     | .val o => .val o :: run c o.wl ss
 
-/-- the outcomes of a walk without panic (`none`: some step panicked) -/
-def runO (c : Cfg) (d : Option Wl) : List Step → Option (List StepOut)
-  | [] => some []
+/-- the outcomes of a walk up to the first panic of the controller -/
+def runV (c : Cfg) (d : Option Wl) : List Step → List StepOut
+  | [] => []
   | s :: ss =>
     match step c d s with
-    | .panic => none
-    | .val o =>
-      match runO c o.wl ss with
-      | none => none
-      | some os => some (o :: os)
-
-/-- the workload at the end of a walk (`none`: some step panicked) -/
-def runD (c : Cfg) (d : Option Wl) : List Step → Option (Option Wl)
-  | [] => some d
-  | s :: ss =>
-    match step c d s with
-    | .panic => none
-    | .val o => runD c o.wl ss
+    | .panic => []
+    | .val o => o :: runV c o.wl ss
 
 end RV.CtlSts
